@@ -449,6 +449,36 @@ def trigger_stage(rep, tier, seed):
                                             "sample": {k: recs[0][k] for k in ("alg", "n", "params", "masks")}}
 
 
+def api_stage(rep, tier, seed, prefixes):
+    """The public entry points agree: solve() converted at once, its arrays kept by reference, find_all(), solve_all(),
+    the multiprocessing solver's find_all() (spec/ApiTrace.tla)."""
+    r = random.Random(seed * 613 + 11)
+    n = 320 if tier == "quick" else 6000
+    items = []
+    for k in range(n):
+        P = problems.random_problem(r, cap=300)
+        cfg = {"ca": r.choice([0, 0, 1]), "vh": r.choice([0, 1, 2]), "dh": r.choice([0, 1, 2, 3])}
+        it = {"rid": k, "P": P, "cfg": cfg}
+        if k % 8 == 0:
+            it["mp"] = r.choice([1, 2, 3])
+            it["mpvar"] = r.randrange(len(P["vidx"]))
+        items.append(it)
+    with Scratch("api") as tmp:
+        for mode_jit in ((False, True) if tier == "thorough" else (False,)):
+            outs = run_workers("rec_api.py", [{"items": items[k::NCPU]} for k in range(NCPU) if items[k::NCPU]],
+                               nucs_env(jit=mode_jit), tmp, timeout=1500)
+            recs = sorted(read_ndjson(outs), key=lambda x: x["rid"])
+            verdicts, judged, st, tr = validate_shards("ApiTrace", "ApiTrace.cfg", "API_RECS", recs, tmp)
+            for rid, clause in set(map(tuple, verdicts)):
+                if clause.startswith(prefixes):
+                    rep.fail({"P": items[rid]["P"], "cfg": items[rid]["cfg"], "clause": clause, "stage": "public-entry-points"},
+                             f"{clause} on {json.dumps(items[rid]['P'])[:300]} cfg={items[rid]['cfg']}")
+            rep.add(states=st, transitions=tr, traces_validated_against_impl=judged)
+    rep.cov["public_entry_points"] = {"spec": "spec/ApiTrace.tla", "problems": len(items),
+                                      "with_multiprocessing_find_all": sum(1 for x in items if x.get("mp")),
+                                      "with_solutions": sum(1 for x in recs if x["iter"])}
+
+
 def init_stage(rep, tier, seed, prefixes):
     """Problem.init(): stable complexity sort, trigger matrix and flattened arrays judged by spec/ProblemInit.tla."""
     r = random.Random(seed * 991 + 4)
